@@ -258,8 +258,7 @@ def _check_sample(res, db, copies, rl, depth, desc, params=None, truth=False):
                     # exact observable: the realigner phased the indel into an event of another net length and
                     # aldy's "subsumed indel" branch skipped it (no counts were taken)
                     net = (len(r["ref"]) - len(r["alt"]))
-                    if "count" not in r and r["phased"][0] - r["phased"][1] != net and any(
-                            o != m and abs(o.pos - m.pos) <= rl for o in vs):
+                    if "count" not in r and r["phased"][0] - r["phased"][1] != net:
                         subsumed.append(str(m))
                 elif any(o != m and abs(o.pos - m.pos) <= 25 for o in indels):
                     subsumed.append(str(m))
